@@ -30,12 +30,16 @@ def solver_positions(run, seed, stride, want_m2, tag):
     if res["violated"]:
         raise core.ToolError("solver run failed: " + str(res["violated"]))
     classes = {}
-    for c, fen in re.findall(r'^<<"POS", "(\w+)", "(.*)">>$', res["output"], re.M):
+    finishing = {}     # fen -> {"mate": [moves], "stale": [moves]} (TLC-computed)
+    for c, fen, js in re.findall(r'^<<"POS", "(\w+)", "([^"]*)", "(.*)">>$', res["output"], re.M):
         classes.setdefault(c, []).append(fen)
+        finishing[fen] = json.loads(core._unescape(js))
+    classes["_finishing"] = finishing
     res["output"] = ""
-    run.add_mc(res, {"Fam": "MATES", "Stride": stride, "WantM2": want_m2, "classes": {k: len(v) for k, v in classes.items()}})
+    run.add_mc(res, {"Fam": "MATES", "Stride": stride, "WantM2": want_m2, "classes": {k: len(v) for k, v in classes.items() if k != "_finishing"}})
     for k in classes:
-        classes[k].sort()
+        if k != "_finishing":
+            classes[k].sort()
     return classes
 
 
@@ -57,7 +61,7 @@ def run_histories(run, vh, prop, histories, judged, label, nchunks=core.NPROC, p
             json.dump({"histories": chunk}, f)
         out = os.path.join(d, "%s-%d.ndjson" % (label, i))
         p = core.sh([exe, "search", "--script", script, "--out", out], check=False, timeout=3600)
-        if p.returncode != 0:
+        if p.returncode not in (0, 3):
             # the process died (abort / non-unwinding panic): attribute to the last begun step
             with open(out, "a") as f:
                 f.write(json.dumps({"ev": "died", "rc": p.returncode, "stderr": p.stderr[-600:]}) + "\n")
